@@ -38,7 +38,24 @@ fn dispatch(sx: &Sx) -> String {
         "wrap" => modes::wrap::wrap(args),
         "styled" => modes::wrap::styled(args),
         "about" => modes::wrap::about(args),
-        m => format!("unknown-mode {m}"),
+        m => {
+            // areas developed independently: each owns its file under modes/ and claims its modes there
+            let areas: [fn(&str, &[Sx]) -> Option<String>; 7] = [
+                modes::help::dispatch,
+                modes::aot::dispatch,
+                modes::aottext::dispatch,
+                modes::dynamic::dispatch,
+                modes::man::dispatch,
+                modes::derive::dispatch,
+                modes::history::dispatch,
+            ];
+            for f in areas {
+                if let Some(r) = f(m, args) {
+                    return r;
+                }
+            }
+            format!("unknown-mode {m}")
+        }
     }
 }
 
